@@ -154,6 +154,55 @@ Definition log_fail (g : graph) (s : state) (parse : bool) : state :=
   let s := set_failed s (flags_before_send logresult_prog || failed s) in
   if negb (g_keep_going g) || parse then set_stopreq s true else s.
 
+(* build.Build's failure path in source order (Gen/StateOrder.v: buildfail_prog).  FinishBuild wakes every goroutine blocked
+   in WaitForBuild on this target; what they read next is target.State().  As the source has it, SetState(Failed) comes
+   first (LBuildFail sets the state, LFinishBuild wakes the waiters).  Were FinishBuild moved in front of SetState, the
+   waiters would be woken by LBuildFail while the state is still Building and the state would only be set by LFinishBuild. *)
+Definition bf_eqb (a b : bf_stmt) : bool :=
+  match a, b with BFLog, BFLog | BFRemoveOutputs, BFRemoveOutputs | BFSetState, BFSetState | BFFinish, BFFinish => true | _, _ => false end.
+Fixpoint bf_index (x : bf_stmt) (p : list bf_stmt) : option nat :=
+  match p with
+  | [] => None
+  | y :: r => if bf_eqb x y then Some 0 else match bf_index x r with Some k => Some (S k) | None => None end
+  end.
+Definition state_before_finish (p : list bf_stmt) : bool :=
+  match bf_index BFSetState p, bf_index BFFinish p with
+  | Some a, Some b => Nat.ltb a b
+  | _, _ => false
+  end.
+
+(* core.waitOnChan (behind WaitForBuild, SyncParsePackage, ...) as the program gotrans reads (Gen/StateOrder.v:
+   waitonchan_prog), run against an environment: at every blocking point the environment says which event is delivered,
+   the close of the channel or the 10 s debug timer.  wc_exec returns Some seen when the function returns, seen = the
+   close has been received; None = still blocked when the environment ends. *)
+Inductive wc_ev := WEClose | WETimer.
+Fixpoint wc_recv (env : list wc_ev) : option (list wc_ev) :=
+  match env with
+  | [] => None
+  | WEClose :: r => Some r
+  | WETimer :: r => wc_recv r      (* a bare <-ch ignores the timer *)
+  end.
+Fixpoint wc_exec (p : list wc_stmt) (env : list wc_ev) (seen : bool) : option bool :=
+  match p with
+  | [] => Some seen
+  | WCRecv :: r => match wc_recv env with Some env' => wc_exec r env' true | None => None end
+  | WCSelect chret tmret :: r =>
+      match env with
+      | [] => None
+      | WEClose :: env' => if chret then Some true else wc_exec r env' true
+      | WETimer :: env' => if tmret then Some seen else wc_exec r env' seen
+      end
+  end.
+(* the syntactic check: no path through the program returns without having received the close *)
+Fixpoint wc_safe (p : list wc_stmt) : bool :=
+  match p with
+  | [] => false
+  | WCRecv :: _ => true
+  | WCSelect _ tmret :: r => negb tmret && wc_safe r
+  end.
+(* WaitForBuild returns only when FinishBuild has closed the channel *)
+Definition wait_needs_close : bool := wc_safe waitonchan_prog.
+
 (* addPendingParse *)
 Definition add_pending_parse (s : state) (l : nat) : state :=
   set_ptasks (set_numPending (set_numActive s (numActive s + 1)%Z) (numPending s + 1)%Z) (l :: ptasks s).
@@ -271,12 +320,12 @@ Definition enabled (g : graph) (s : state) (l : label) : bool :=
   | LAsyncBeginWait t => lt_n g t && match asy s t with AResolve [] _ => true | _ => false end
   | LWaitDep t d =>
       lt_n g t && match asy s t with
-                  | AWait (d' :: _) => Nat.eqb d d' && fin s d && negb (st_geb (ts s d) dep_failed_threshold)
+                  | AWait (d' :: _) => Nat.eqb d d' && (negb wait_needs_close || fin s d) && negb (st_geb (ts s d) dep_failed_threshold)
                   | _ => false
                   end
   | LDepFailed t d =>
       lt_n g t && match asy s t with
-                  | AWait (d' :: _) => Nat.eqb d d' && fin s d && st_geb (ts s d) dep_failed_threshold
+                  | AWait (d' :: _) => Nat.eqb d d' && (negb wait_needs_close || fin s d) && st_geb (ts s d) dep_failed_threshold
                   | _ => false
                   end
   | LActivatePending t => lt_n g t && match asy s t with AWait [] => true | _ => false end
@@ -398,9 +447,12 @@ Definition apply (g : graph) (s : state) (l : label) : state :=
       let s := set_finishing s (t :: finishing s) in
       let s := set_trace s (OEnd t RFailed :: trace s) in
       let s := log_fail g s false in
-      set_ts s (upd (ts s) t build_fail_set)
+      if state_before_finish buildfail_prog then set_ts s (upd (ts s) t build_fail_set)
+      else set_fin s (upd (fin s) t true)          (* FinishBuild first: the waiters are woken, the state is still Building *)
   | LFinishBuild t =>
       let s := set_finishing s (remove1 t (finishing s)) in
+      let s := if state_before_finish buildfail_prog then s
+               else if st_eqb (ts s t) build_start_set then set_ts s (upd (ts s) t build_fail_set) else s in
       set_fin (set_completing s (t :: completing s)) (upd (fin s) t true)
   | LTaskDone t => task_done (set_completing s (remove1 t (completing s)))
   | LForward => set_nfwd s (S (nfwd s))
@@ -692,14 +744,58 @@ Definition accepts_with (g : graph) (hints : list nat) (es : list ev) (tail : li
 Definition accepts (g : graph) (hints : list nat) (es : list ev) (tail : list (nat * bool)) (exit_nonzero : bool) : bool :=
   accepts_with g hints es tail exit_nonzero 0 || accepts_with g hints es tail exit_nonzero 1 || accepts_with g hints es tail exit_nonzero 2.
 
+(* ------------------------------------------------------------------------------------------------------------------ *)
+(* parse.checkSubrepo for a label inside a subrepo.  A package is (subrepo, package name), subrepo 0 = the host repository.
+   `label` = the package asked for (inside the subrepo), `definer` = the package of label.SubrepoLabel(), i.e. the one
+   whose BUILD file is expected to call subrepo(), `dependent` = the package whose BUILD file is being interpreted and
+   contains the subinclude.  If the subrepo is not registered yet checkSubrepo either gives up ("not defined in this
+   package yet": the lock-up guard, Gen/StateOrder.v: subrepo_guard_arg says which label it compares with the dependent) or
+   goes on to parse(definer:all), which ends in SyncParsePackage(definer): it WAITS if that package is being interpreted. *)
+Definition plabel := (nat * nat)%type.
+Definition plabel_eqb (a b : plabel) : bool := Nat.eqb (fst a) (fst b) && Nat.eqb (snd a) (snd b).
+Inductive cs_result := CSNotYet | CSParse (q : plabel).
+Definition in_same_package (dep_original : bool) (a dependent : plabel) : bool := negb dep_original && plabel_eqb a dependent.
+Definition check_subrepo (arg : sg_arg) (label definer dependent : plabel) (dep_original : bool) : cs_result :=
+  if in_same_package dep_original (match arg with SGDefiner => definer | SGLabel => label end) dependent then CSNotYet
+  else CSParse definer.
+(* what the user sees: 0 = no subrepo error, 1 = "... is not defined in this package yet", 2 = "Subrepo ... is not defined" *)
+Definition subrepo_outcome (registered definer_defines : bool) (label definer dependent : plabel) : nat :=
+  if registered then 0
+  else match check_subrepo subrepo_guard_arg label definer dependent false with
+       | CSNotYet => 1
+       | CSParse _ => if definer_defines then 0 else 2
+       end.
+
+(* The interpreters of BUILD files as a wait-for system: `interp` = the packages whose BUILD file is being interpreted (each
+   by one goroutine, SyncParsePackage's pending-package entry), `waits` = (p, q): the interpreter of p is blocked in
+   SyncParsePackage(q) until q's interpretation ends.  A step: the interpreter of `dependent` reaches a subinclude of
+   `label`, whose subrepo `definer` is expected to define. *)
+Record pstate_w := mkPW { interp : list plabel; waits : list (plabel * plabel) }.
+Definition pmem (p : plabel) (l : list plabel) : bool := existsb (plabel_eqb p) l.
+Definition sub_step (arg : sg_arg) (s : pstate_w) (label definer dependent : plabel) : pstate_w :=
+  if negb (pmem dependent (interp s)) then s else
+  match check_subrepo arg label definer dependent false with
+  | CSNotYet => mkPW (filter (fun p => negb (plabel_eqb p dependent)) (interp s)) (waits s)     (* the interpretation fails and ends *)
+  | CSParse q => if pmem q (interp s) then mkPW (interp s) ((dependent, q) :: waits s)          (* blocked until q is done *)
+                 else mkPW (q :: interp s) (waits s)                                             (* this goroutine interprets q itself *)
+  end.
+Fixpoint sub_run (arg : sg_arg) (s : pstate_w) (steps : list (plabel * plabel * plabel)) : pstate_w :=
+  match steps with
+  | [] => s
+  | (l, d, dep) :: r => sub_run arg (sub_step arg s l d dep) r
+  end.
+
 (* ---- correspondence cases ---- *)
 Inductive case :=
-| CRun (g : graph) (hints : list nat) (events : list ev) (tail : list (nat * bool)) (exit_nonzero : bool).
+| CRun (g : graph) (hints : list nat) (events : list ev) (tail : list (nat * bool)) (exit_nonzero : bool)
   (* tail: commands that ran according to the action log but have no final result in the observed stream: (target, succeeded) *)
+| CSub (registered definer_defines : bool) (label definer dependent : plabel) (observed : nat).
+  (* a BUILD file with a subinclude of a subrepo target: which message plz ended with *)
 
 Definition check (c : case) : bool :=
   match c with
   | CRun g h es tl x => accepts g h es tl x
+  | CSub reg def l d dep o => Nat.eqb (subrepo_outcome reg def l d dep) o
   end.
 
 (* graphs as the harness prints them *)
